@@ -2338,4 +2338,145 @@ example :
       [.create, .create] = [2, 3] ∧
     srvHydIds SrvCtr.new [.create, .setHyd false, .create, .setHyd true, .create] = [0, 1] := by decide
 
+/-! ## J. the error channel keeps every registered error; `blocking` does not touch serialization -/
+
+/-- **serialization is independent of `blocking`**: for every carrier constructor the id drawn and
+the state of the shared context (what is handed to `write_async`, hence every chunk of both server
+exits) are the same with and without the flag; the flag only defers the response stream -/
+theorem C12_blocking_irrelevant (s : Srv) (shared : Bool) (key : Nat) (v : Str) :
+    (s.createCarrier true shared key v).1 = (s.createCarrier false shared key v).1 ∧
+    (s.createCarrier true shared key v).2.1.buf = (s.createCarrier false shared key v).2.1.buf ∧
+    (s.createCarrier true shared key v).2.1.ctr = (s.createCarrier false shared key v).2.1.ctr ∧
+    (s.createCarrier true shared key v).2.2 = true ∧ (s.createCarrier false shared key v).2.2 = false := by
+  simp [Srv.createCarrier]
+
+/-- a carrier's value is handed to `write_async` exactly when the flag is on -/
+theorem C12_carrier_serialized_iff_hydrating (s : Srv) (blocking shared : Bool) (key : Nat) (v : Str) :
+    (s.createCarrier blocking shared key v).2.1.buf
+      = if s.ctr.hyd then s.buf ++ [⟨key, s.ctr.nextId.1, v, shared⟩] else s.buf := by
+  unfold Srv.createCarrier
+  cases hh : s.ctr.hyd <;> cases shared <;> simp [Srv.nextId, Srv.writeAsync, Srv.writeReady]
+
+/-- the errors of a sealed boundary, which `AsyncDataStream` drops on purpose -/
+def sealedPart (sl : List Nat) : List ErrRec → List ErrRec
+  | [] => []
+  | (b, e, m) :: rest => if sl.contains b then (b, e, m) :: sealedPart sl rest else sealedPart sl rest
+
+theorem count_unsealed_sealed (r : ErrRec) (sl : List Nat) (l : List ErrRec) :
+    (unsealed sl l).count r + (sealedPart sl l).count r = l.count r := by
+  induction l with
+  | nil => rfl
+  | cons x xs ih =>
+    obtain ⟨b, e, m⟩ := x
+    unfold unsealed sealedPart
+    split
+    · simp only [List.count_cons]; omega
+    · simp only [List.count_cons]; omega
+
+theorem sealedPart_nil (l : List ErrRec) : sealedPart [] l = [] := by
+  induction l with
+  | nil => rfl
+  | cons x xs ih => obtain ⟨b, e, m⟩ := x; simp [sealedPart, ih]
+
+/-- what a step registers / puts into a chunk / drops (sealed boundary) -/
+def errReg : SOp → List ErrRec
+  | .err b e m => [(b, e, m)]
+  | _ => []
+
+def errOut (s : Srv) : SOp → List ErrRec
+  | .start => (match s.phase with | .idle => s.errors | _ => [])
+  | .poll => (match s.phase with | .streaming => unsealed s.sealed s.errors | _ => [])
+  | _ => []
+
+def errDropped (s : Srv) : SOp → List ErrRec
+  | .poll => (match s.phase with | .streaming => sealedPart s.sealed s.errors | _ => [])
+  | _ => []
+
+structure ELog where
+  reg : List ErrRec
+  out : List ErrRec
+  dropped : List ErrRec
+
+def eRun (p g : Nat → Bool) : Trace → ELog → List SOp → Trace × ELog
+  | t, l, [] => (t, l)
+  | t, l, op :: ops =>
+    eRun p g (t.step p g op)
+      ⟨l.reg ++ errReg op, l.out ++ errOut t.srv op, l.dropped ++ errDropped t.srv op⟩ ops
+
+theorem poll_errors (p g : Nat → Bool) (s : Srv) :
+    (s.poll p g).2.errors = match s.phase with
+      | .streaming => []
+      | _ => s.errors := by
+  cases hp : s.phase <;> simp only [Srv.poll, hp]
+  split
+  · rfl
+  · split <;> rfl
+
+/-- the ghost lists are honest: `pending_data()` prints exactly the buffered errors into the first
+chunk, and a streaming poll that yields data/errors prints exactly the unsealed ones -/
+theorem start_prints_errors (p g : Nat → Bool) (s : Srv) (h : s.phase = .idle) :
+    (s.start p g).phase = .initial (initialChunk p g s.sync (errOut s .start) (s.buf.map (·.id))) ∧
+    (s.start p g).errors = [] := by
+  simp [Srv.start, errOut, h]
+
+theorem estep_count (p g : Nat → Bool) (t : Trace) (op : SOp) (r : ErrRec) :
+    (errOut t.srv op).count r + (errDropped t.srv op).count r + ((t.step p g op).srv.errors).count r
+      = t.srv.errors.count r + (errReg op).count r := by
+  cases op with
+  | write id v => simp [errOut, errDropped, errReg, Trace.step, Srv.writeAsync]
+  | complete k => simp [errOut, errDropped, errReg, Trace.step, Srv.complete]
+  | err b e m =>
+    simp only [errOut, errDropped, errReg, Trace.step, Srv.registerError, List.count_nil,
+      List.count_append]
+    omega
+  | sealErr b => simp [errOut, errDropped, errReg, Trace.step, Srv.seal]
+  | inc i => simp [errOut, errDropped, errReg, Trace.step, Srv.setIncomplete]
+  | start =>
+    cases hp : t.srv.phase <;> simp [errOut, errDropped, errReg, Trace.step, Srv.start, hp]
+  | poll =>
+    have he := poll_errors p g t.srv
+    cases hp : t.srv.phase with
+    | streaming =>
+      simp only [hp] at he
+      have := count_unsealed_sealed r t.srv.sealed t.srv.errors
+      simp only [errOut, errDropped, errReg, Trace.step, hp, he, List.count_nil]
+      omega
+    | idle => simp only [hp] at he; simp [errOut, errDropped, errReg, Trace.step, hp, he]
+    | initial c => simp only [hp] at he; simp [errOut, errDropped, errReg, Trace.step, hp, he]
+    | done => simp only [hp] at he; simp [errOut, errDropped, errReg, Trace.step, hp, he]
+
+theorem eRun_count (p g : Nat → Bool) (ops : List SOp) (r : ErrRec) :
+    ∀ (t : Trace) (l : ELog),
+      l.out.count r + l.dropped.count r + t.srv.errors.count r = l.reg.count r →
+      let res := eRun p g t l ops
+      res.2.out.count r + res.2.dropped.count r + res.1.srv.errors.count r = res.2.reg.count r := by
+  induction ops with
+  | nil => intro t l h; exact h
+  | cons op ops ih =>
+    intro t l h
+    simp only [eRun]
+    apply ih
+    have := estep_count p g t op r
+    simp only [List.count_append]
+    omega
+
+/-- **the error channel preserves the multiset of errors**: after any sequence of registrations
+(any number per boundary, equal or different texts, before `pending_data()`, between chunks, after
+the last value), sealings, writes, completions and polls, every registered `(boundary, id,
+message)` triple is — with its multiplicity — either already printed into a chunk, or dropped
+because its boundary was sealed, or still buffered; nothing is lost, nothing is duplicated -/
+theorem C12_errors_preserved (p g : Nat → Bool) (ops : List SOp) (r : ErrRec) :
+    let res := eRun p g Trace.init ⟨[], [], []⟩ ops
+    res.2.out.count r + res.2.dropped.count r + res.1.srv.errors.count r = res.2.reg.count r :=
+  eRun_count p g ops r Trace.init ⟨[], [], []⟩ (by simp [Trace.init, Srv.new])
+
+/-- two different errors with the same text in one boundary, registered in one flush window, both
+reach the client (evaluating the real statement text) -/
+example :
+    let res := eRun asciiPrintable noExtend Trace.init ⟨[], [], []⟩
+      [.start, .poll, .err 3 20 [98, 111, 111, 109], .err 3 21 [98, 111, 111, 109], .poll]
+    res.2.out = [(3, 20, [98, 111, 111, 109]), (3, 21, [98, 111, 111, 109])] ∧ res.1.srv.errors = [] ∧
+    (evalChunk (asyncChunk asciiPrintable noExtend [] res.2.out) JsState.empty).map (·.errors)
+      = some [(3, 20, [98, 111, 111, 109]), (3, 21, [98, 111, 111, 109])] := by decide
+
 end Leptos.Transfer
